@@ -1,4 +1,131 @@
-Require Import V.Base.MachineInt V.Model.Ring V.Spec.Fifo V.Oracle.C06Oracle.
+(* Property C06 - command ring: each written command is read exactly once, intact, in order.
+   Statements only; proofs are in Proofs/RingSeq.v, RingRender.v, RingSeqRun.v, C06OracleProofs.v
+   (sequential part) and Proofs/RingConc*.v (interleavings). *)
+Require Import V.Base.MachineInt V.Generated.GenConsts V.Model.LogBase V.Model.Ring V.Spec.Fifo
+               V.Oracle.C06Oracle V.Proofs.RingArith V.Proofs.RingSeq V.Proofs.RingRender V.Proofs.RingSeqRun
+               V.Proofs.C06OracleProofs.
 Open Scope Z_scope.
-Theorem C06_placeholder : True. Proof. exact I. Qed.
-Print Assumptions C06_placeholder.
+
+(* ---------------------------------------------------------------------------------------------
+   Sequential part: any capacity 2^k (3 <= k <= 30), any start position, any operation list. *)
+
+(* write: the four outcomes, and what an accepted write appends *)
+Theorem C06_write : forall m st typ body,
+  wf st -> r_tail st < two62 -> (typ < 1 \/ valid_cmd typ = true) ->
+  exists st' r, write m st typ body = (st', r) /\ wf st' /\
+    r_cap st' = r_cap st /\ r_head st' = r_head st /\ r_corr st' = r_corr st /\ r_hb st' = r_hb st /\
+    let n := Z.of_nat (length body) in
+    let cp := r_cap st in
+    ( (typ < 1 /\ r = Err IllegalArg /\ st' = st) \/
+      (1 <= typ /\ n > cp / 8 /\ r = Err TooLong /\ st' = st) \/
+      (1 <= typ /\ n <= cp / 8 /\ no_room cp (r_head st) (r_tail st) n = true /\ r = Err InsufficientCapacity /\
+         r_tail st' = r_tail st /\ r_slots st' = r_slots st) \/
+      (1 <= typ /\ n <= cp / 8 /\ no_room cp (r_head st) (r_tail st) n = false /\ r = Ok 0 /\
+         r_tail st' = r_tail st + rec_bytes n + wrap_pad cp (r_tail st) n /\
+         r_slots st' = r_slots st ++ pad_slots (r_tail st) (wrap_pad cp (r_tail st) n) 0 0 ++
+                       [mkSlot (r_tail st + wrap_pad cp (r_tail st) n) (rec_bytes n) (n + 8) typ body 0 0]) ).
+Proof. exact write_spec. Qed.
+Print Assumptions C06_write.
+
+(* a write is refused for space iff unconsumed bytes + record + wrap padding exceed the capacity *)
+Theorem C06_capacity : forall m st typ body,
+  wf st -> r_tail st < two62 -> valid_cmd typ = true -> Z.of_nat (length body) <= r_cap st / 8 ->
+  (snd (write m st typ body) = Err InsufficientCapacity <->
+   (r_tail st - r_head st) + rec_bytes (Z.of_nat (length body))
+     + wrap_pad (r_cap st) (r_tail st) (Z.of_nat (length body)) > r_cap st) /\
+  (snd (write m st typ body) = Ok 0 <->
+   (r_tail st - r_head st) + rec_bytes (Z.of_nat (length body))
+     + wrap_pad (r_cap st) (r_tail st) (Z.of_nat (length body)) <= r_cap st).
+Proof. exact capacity_iff. Qed.
+Print Assumptions C06_capacity.
+
+(* read: hands out a prefix of the queue (count = length <= limit), leaves the rest, never passes
+   the tail, makes progress whenever the ring is not empty *)
+Theorem C06_read : forall m st limit,
+  wf st -> r_tail st < two62 ->
+  exists st' n l, read m st limit = (st', Ok (n, l)) /\ wf st' /\
+    r_cap st' = r_cap st /\ r_tail st' = r_tail st /\ r_hc st' = r_hc st /\ r_corr st' = r_corr st /\ r_hb st' = r_hb st /\
+    n = Z.of_nat (length l) /\ n <= Z.max 0 limit /\
+    abs st = l ++ abs st' /\
+    r_head st <= r_head st' <= r_tail st /\
+    (1 <= limit -> r_head st <> r_tail st -> r_head st < r_head st') /\
+    (exists used, r_slots st = used ++ r_slots st' /\
+        Forall (fun s => r_head st <= s_pos s /\ s_pos s + s_span s <= r_head st') used).
+Proof. exact read_spec. Qed.
+Print Assumptions C06_read.
+
+(* refinement to the FIFO: following the model's outputs, the specification interpreter never
+   rejects and ends holding exactly the abstraction of the model's final state *)
+Theorem C06_fifo : forall m cp p0 hc0 c0 ops, seq_domain cp p0 hc0 c0 ops ->
+  exists s', check_to cp (mkOst [] p0 p0 []) ops (snd (run m (init cp p0 hc0 c0) ops)) = Some s' /\
+    o_q s' = abs (fst (run m (init cp p0 hc0 c0) ops)) /\
+    o_h s' = r_head (fst (run m (init cp p0 hc0 c0) ops)) /\
+    o_t s' = r_tail (fst (run m (init cp p0 hc0 c0) ops)).
+Proof. exact fifo_refinement. Qed.
+Print Assumptions C06_fifo.
+
+(* head cache <= head <= tail <= head + capacity, after every run (hence after every prefix) *)
+Theorem C06_order : forall m cp p0 hc0 c0 ops, seq_domain cp p0 hc0 c0 ops ->
+  let st := fst (run m (init cp p0 hc0 c0) ops) in
+  r_hc st <= r_head st /\ r_head st <= r_tail st /\ r_tail st <= r_head st + r_cap st.
+Proof. exact order_invariant. Qed.
+Print Assumptions C06_order.
+
+(* the space a read consumed renders to zero *)
+Theorem C06_zero : forall m st limit, wf st -> r_tail st < two62 ->
+  let st' := fst (read m st limit) in
+  forall q, r_head st <= q < r_head st' -> word_at (render st') (q mod r_cap st) = 0.
+Proof. exact read_zero. Qed.
+Print Assumptions C06_zero.
+
+(* correlation ids handed out in a run are pairwise distinct *)
+Theorem C06_ids : forall m cp p0 hc0 c0 ops, seq_domain cp p0 hc0 c0 ops ->
+  NoDup (ids_of (snd (run m (init cp p0 hc0 c0) ops))).
+Proof. exact ids_distinct. Qed.
+Print Assumptions C06_ids.
+
+(* the structured lookups of the model are lookups in the rendered memory: the words at a slot's
+   index are its header *)
+Theorem C06_render_coherent : forall st pre s suf, wf st -> r_slots st = pre ++ s :: suf ->
+  word_at (render st) (s_pos s mod r_cap st) = s_len s /\
+  word_at (render st) (s_pos s mod r_cap st + 4) = s_type s.
+Proof. exact header_in_memory. Qed.
+Print Assumptions C06_render_coherent.
+
+(* unblock does nothing when no producer died *)
+Theorem C06_unblock_idle : forall st, wf st -> unblock st = (st, false).
+Proof. exact unblock_seq. Qed.
+Print Assumptions C06_unblock_idle.
+
+(* the predicate used to judge the implementation is true of every run of the model *)
+Theorem C06_oracle_seq : forall m cp p0 hc0 c0 ops, seq_domain cp p0 hc0 c0 ops ->
+  holds_seq cp p0 hc0 c0 ops (snd (run m (init cp p0 hc0 c0) ops)) = true.
+Proof. exact oracle_seq_model. Qed.
+Print Assumptions C06_oracle_seq.
+
+(* non-vacuity: a ring of 32 bytes started at position 2^32 - 16 (the position crosses 2^32) with a
+   stale head cache: a write that needs padding, a refusal, a read that consumes only the padding,
+   ids across the i64 wrap *)
+Definition ex_ops : list op :=
+  [OpWrite 1 []; OpRead 1; OpWrite 2 [1; 2; 3]; OpWrite 3 [4; 5; 6; 7]; OpRead 1; OpNextId; OpRead 5;
+   OpNextId; OpUnblock; OpSize; OpDump].
+
+Example C06_example_domain : seq_domain 32 4294967280 4294967248 (two63 - 1) ex_ops.
+Proof. unfold seq_domain. split; [exists 5; split; [lia | reflexivity] |].
+  repeat split; try (vm_compute; congruence); try reflexivity.
+  unfold ex_ops. repeat constructor; cbn; auto; right; reflexivity. Qed.
+
+Example C06_example_run :
+  snd (run Debug (init 32 4294967280 4294967248 (two63 - 1)) ex_ops) =
+  [OW (Ok 0) 4294967280 4294967288;
+   OR (Ok 1) [(1, 0, [])] 4294967288 4294967288;
+   OW (Ok 0) 4294967288 4294967312;                       (* 8 bytes of padding + a 16 byte record at index 0 *)
+   OW (Err InsufficientCapacity) 4294967288 4294967312;   (* 24 + 16 > 32 *)
+   OR (Ok 0) [] 4294967296 4294967312;                    (* only the padding was consumed *)
+   OI (Ok 9223372036854775807);
+   OR (Ok 1) [(2, 3, [197121])] 4294967312 4294967312;
+   OI (Ok (-9223372036854775808));
+   OU (Ok 0) 4294967312 4294967312;
+   OS (Ok 0);
+   OD [(160, 16); (164, 1); (288, -16); (416, 16); (420, 1); (544, 1); (548, -2147483648)]].
+Proof. vm_compute. reflexivity. Qed.
